@@ -841,9 +841,10 @@ def gate(x0: int, x1: int, x2: int, x3: int, x4: int, x5: int, x6: int, x7: int,
                             x20, x21, x22, x23])
 
 
-HIST_QUICK = ['pop', 'replace_gate', 'fold', 'unfold', 'renumber', 'insert_qudit', 'pop_qudit', 'batch_pop',
-              'batch_replace', 'insert_circuit', 'replace_with_circuit', 'compress', 'pop_cycle', 'straighten', 'remove',
-              'append_circuit', 'imul', 'iadd', 'insert_gate', 'fold_unfold']
+HIST = ['pop', 'replace_gate', 'fold', 'unfold', 'renumber', 'insert_qudit', 'pop_qudit', 'batch_pop', 'batch_replace',
+        'append_circuit', 'replace_with_circuit', 'compress', 'pop_cycle', 'straighten', 'remove', 'imul', 'iadd',
+        'insert_gate', 'fold_unfold', 'batch_unfold']
+HIST_W3_CHEAP = ['pop', 'unfold', 'pop_qudit', 'insert_qudit', 'compress', 'pop_cycle', 'renumber', 'remove']
 MUT_QUICK = ['append_gate', 'insert_gate', 'pop', 'replace_gate', 'renumber', 'unfold', 'pop_qudit', 'batch_replace']
 
 
@@ -855,18 +856,18 @@ def obligations(tier: str) -> list[dict]:
 
     outers = ['if', 'while', 'dowhile', 'dtd', 'pardo', 'pardof', 'pardo3', 'seq', 'foreach']
     if tier == 'quick':
-        T = 900
-        ob('circ/pre3', 'circ', {'W': 3, 'npre': 2, 'kinds': []}, T)
-        ob('circ/pre3/blocks', 'circ', {'W': 2, 'npre': 3, 'kinds': [], 'codes': [1, 2, 5, 6], 'prepop': False}, T)
-        for k in HIST_QUICK:
-            ob('circ/%s' % k, 'circ', {'W': 3, 'npre': 1, 'kinds': [k], 'codes': [1, 2, 3, 5]}, T)
-            ob('circ/%s/pre2' % k, 'circ', {'W': 2, 'npre': 2, 'kinds': [k], 'codes': [1, 2, 4, 6], 'battery': False}, T)
+        T = 900      # sized for < 200 s on an idle machine; generous because the box is shared
+        ob('circ/pre2/W3', 'circ', {'W': 3, 'npre': 2, 'kinds': [], 'codes': [1, 2, 5]}, T)
+        ob('circ/pre3/W2', 'circ', {'W': 2, 'npre': 3, 'kinds': [], 'codes': [1, 2, 5], 'prepop': False}, T)
+        for k in HIST:
+            ob('circ/%s/W2' % k, 'circ', {'W': 2, 'npre': 1, 'kinds': [k]}, T)
+        for k in HIST_W3_CHEAP:
+            ob('circ/%s/W3' % k, 'circ', {'W': 3, 'npre': 1, 'kinds': [k], 'codes': [1, 2, 3, 5]}, T)
         for k in MUT_QUICK:
-            ob('circ/copy-then-%s' % k, 'circ', {'W': 2, 'npre': 2, 'kinds': [], 'mutate': k, 'codes': [1, 2, 5]}, T)
+            ob('circ/copy-then-%s' % k, 'circ', {'W': 2, 'npre': 1, 'kinds': [], 'mutate': k, 'codes': [1, 2, 5]}, T)
         ob('radix/1item', 'radix', {'items': '?'}, T)
-        for rad in ([2, 3, 2], [3, 2, 3]):
-            for first in 'BT':
-                ob('radix/%s,?/r%s' % (first, ''.join(map(str, rad))), 'radix', {'items': first + ',?', 'rad': rad}, T)
+        for first in 'BT':
+            ob('radix/%s,?/r232' % first, 'radix', {'items': first + ',?', 'rad': [2, 3, 2]}, T)
         ob('pd/mappings-x-graph', 'pd', {}, T)
         ob('pd/scalars', 'pd', {'maps': False, 'graph': False, 'scalars': True}, T)
         for o in outers:
@@ -876,28 +877,30 @@ def obligations(tier: str) -> list[dict]:
         ob('gate/samples', 'gate', {}, T)
     else:
         T = 3000
-        ob('circ/pre3', 'circ', {'W': 3, 'npre': 3, 'kinds': []}, T)
-        for k in sorted(set(HIST_QUICK + MUT_KINDS)):
-            ob('circ/%s/W3' % k, 'circ', {'W': 3, 'npre': 2, 'kinds': [k]}, T)
-            ob('circ/%s/pre3' % k, 'circ', {'W': 2, 'npre': 3, 'kinds': [k], 'codes': [1, 2, 5], 'battery': False}, T)
+        ob('circ/pre2/W3', 'circ', {'W': 3, 'npre': 2, 'kinds': []}, T)
+        ob('circ/pre3/W2', 'circ', {'W': 2, 'npre': 3, 'kinds': [], 'prepop': False}, T)
+        ob('circ/pre3/W3', 'circ', {'W': 3, 'npre': 3, 'kinds': [], 'codes': [1, 2, 5], 'prepop': False, 'battery': False}, T)
+        for k in sorted(set(HIST + MUT_KINDS)):
+            ob('circ/%s/W3' % k, 'circ', {'W': 3, 'npre': 1, 'kinds': [k]}, T)
+            ob('circ/%s/W2/pre2' % k, 'circ', {'W': 2, 'npre': 2, 'kinds': [k], 'codes': [1, 2, 5], 'battery': False}, T)
         for k1 in ['fold', 'renumber', 'pop_qudit', 'insert_qudit', 'batch_replace', 'replace_with_circuit']:
             for k2 in ['pop', 'unfold', 'replace_gate', 'insert_gate']:
-                ob('circ/%s+%s' % (k1, k2), 'circ', {'W': 3, 'npre': 1, 'kinds': [k1, k2], 'prepop': False,
-                                                    'battery': False}, T)
+                ob('circ/%s+%s' % (k1, k2), 'circ', {'W': 2, 'npre': 1, 'kinds': [k1, k2], 'battery': False}, T)
         for k in MUT_KINDS:
-            ob('circ/copy-then-%s' % k, 'circ', {'W': 3, 'npre': 2, 'kinds': [], 'mutate': k, 'codes': [1, 2, 5]}, T)
-            ob('circ/fold-copy-then-%s' % k, 'circ', {'W': 3, 'npre': 1, 'kinds': ['fold'], 'mutate': k,
-                                                      'prepop': False}, T)
+            ob('circ/copy-then-%s/W3' % k, 'circ', {'W': 3, 'npre': 1, 'kinds': [], 'mutate': k, 'codes': [1, 2, 5]}, T)
+            ob('circ/copy-then-%s/W2/pre2' % k, 'circ', {'W': 2, 'npre': 2, 'kinds': [], 'mutate': k, 'codes': [1, 2, 5],
+                                                         'prepop': False}, T)
         for first in 'BT':
             ob('radix/%s,?' % first, 'radix', {'items': first + ',?'}, T)
             for second in 'BT':
-                ob('radix/%s,%s,?/r232' % (first, second), 'radix', {'items': '%s,%s,?' % (first, second), 'rad': [2, 3, 2]}, T)
+                ob('radix/%s,%s,?/r232' % (first, second), 'radix', {'items': '%s,%s,?' % (first, second), 'rad': [2, 3, 2],
+                                                                     'maxw': 2}, T)
         ob('pd/mappings-x-graph', 'pd', {}, T)
-        ob('pd/mappings-x-graph/M4', 'pd', {'M': 4, 'maps': False}, T)
-        ob('pd/scalars', 'pd', {'maps': False, 'graph': True, 'scalars': True}, T)
+        ob('pd/placement-x-graph/M4', 'pd', {'M': 4, 'maps': False}, T)
+        ob('pd/scalars-x-graph', 'pd', {'maps': False, 'graph': True, 'scalars': True}, T)
         for o in outers + ['pardof3']:
             ob('wf/%s' % o, 'wf', {'outer': o, 'preds': ['s', 'n', 'a', 'o', 'c', 'g'], 'nest_all': o != 'pardof3'}, T)
-        ob('graph/n5', 'graph', {'n': 5, 'remote': True}, T)
+        ob('graph/n5/remote', 'graph', {'n': 5, 'remote': True}, T)
         ob('graph/n6', 'graph', {'n': 6}, T)
         ob('gate/samples', 'gate', {}, T)
     return obs
